@@ -85,3 +85,81 @@ Print Assumptions C10_tiers.
 Theorem C10_parse_terminates : forall text ns, parse text ns <> OutOfFuel.
 Proof. exact parse_terminates. Qed.
 Print Assumptions C10_parse_terminates.
+
+(* ------------------------------------------------------------------ *)
+(* SYNTAX OUTSIDE THE ROUND-TRIP DATATYPE (Proofs/RoundTripMore.v): decimal literals  12.5  5.  .5 ,
+   double-quoted strings, qualified names  p:a  (with and without a namespace binding) and the bare
+   "/" , each as the LEFTMOST operand: alone and followed by any of the 14 operators and any
+   round-trip expression E allowed to its right ([rhs w top lts we E k]: the tokens of  op E  in an
+   admissible white-space layout), parse to the expected tree. *)
+From XP Require Import F64.
+From XP.Proofs Require Import EndToEndName RoundTripMore.
+Open Scope list_scope.
+
+Theorem C10_decimal_literal : forall ns ip fp,
+  ip <> [] -> forallb digit_char_b ip = true -> forallb digit_char_b fp = true ->
+  not_inf (of_decimal false ip fp) = true ->
+  (forall we, forallb ws_char we = true ->
+     parse (string_of_list ((ip ++ dot_c :: fp) ++ we)) ns = Ok (ANum (of_decimal false ip fp))) /\
+  (forall w top lts we E k, rhs w top lts we E k -> next_not_digit (rhs_text w top lts we) = true ->
+     parse (string_of_list ((ip ++ dot_c :: fp) ++ rhs_text w top lts we)) ns
+       = Ok (AOp (opstr top) (ANum (of_decimal false ip fp)) (xast E))).
+Proof.
+  intros ns ip fp H1 H2 H3 H4. split.
+  - intros we Hw. exact (RT_decimal_alone ns ip fp we H1 H2 H3 H4 Hw).
+  - intros w top lts we E k Hr Hn. exact (RT_decimal_binop ns ip fp w top lts we E k H1 H2 H3 H4 Hr Hn).
+Qed.
+Print Assumptions C10_decimal_literal.
+
+Theorem C10_fraction_literal : forall ns fp,
+  fp <> [] -> forallb digit_char_b fp = true -> not_inf (of_decimal false [] fp) = true ->
+  (forall we, forallb ws_char we = true ->
+     parse (string_of_list ((dot_c :: fp) ++ we)) ns = Ok (ANum (of_decimal false [] fp))) /\
+  (forall w top lts we E k, rhs w top lts we E k -> next_not_digit (rhs_text w top lts we) = true ->
+     parse (string_of_list ((dot_c :: fp) ++ rhs_text w top lts we)) ns
+       = Ok (AOp (opstr top) (ANum (of_decimal false [] fp)) (xast E))).
+Proof.
+  intros ns fp H1 H2 H3. split.
+  - intros we Hw. exact (RT_fraction_alone ns fp we H1 H2 H3 Hw).
+  - intros w top lts we E k Hr Hn. exact (RT_fraction_binop ns fp w top lts we E k H1 H2 H3 Hr Hn).
+Qed.
+Print Assumptions C10_fraction_literal.
+
+Theorem C10_double_quoted_string : forall ns b,
+  forallb dq_char (list_of_string b) = true ->
+  (forall we, forallb ws_char we = true ->
+     parse (string_of_list ((dq_c :: list_of_string b ++ [dq_c]) ++ we)) ns = Ok (AStr b)) /\
+  (forall w top lts we E k, rhs w top lts we E k ->
+     parse (string_of_list ((dq_c :: list_of_string b ++ [dq_c]) ++ rhs_text w top lts we)) ns
+       = Ok (AOp (opstr top) (AStr b) (xast E))).
+Proof.
+  intros ns b H1. split.
+  - intros we Hw. exact (RT_dq_string_alone ns b we H1 Hw).
+  - intros w top lts we E k Hr. exact (RT_dq_string_binop ns b w top lts we E k H1 Hr).
+Qed.
+Print Assumptions C10_double_quoted_string.
+
+Theorem C10_qualified_name : forall ns pfx nm a,
+  name_ok pfx = true -> name_ok nm = true -> qname_ast ns pfx nm = Some a ->
+  parse (string_of_list ((list_of_string pfx ++ colon :: list_of_string nm) ++ [])) ns = Ok a /\
+  (forall w top lts we E k, rhs w top lts we E k -> sep_qname (rhs_text w top lts we) = true ->
+     parse (string_of_list ((list_of_string pfx ++ colon :: list_of_string nm) ++ rhs_text w top lts we)) ns
+       = Ok (AOp (opstr top) a (xast E))).
+Proof.
+  intros ns pfx nm a H1 H2 H3. split.
+  - exact (RT_qname_alone ns pfx nm a H1 H2 H3).
+  - intros w top lts we E k Hr Hs. exact (RT_qname_binop ns pfx nm a w top lts we E k H1 H2 H3 Hr Hs).
+Qed.
+Print Assumptions C10_qualified_name.
+
+Theorem C10_bare_root : forall ns,
+  (forall we, forallb ws_char we = true -> parse (string_of_list ([slash_c] ++ we)) ns = Ok (ARoot "/")) /\
+  (forall w top lts we E k, rhs w top lts we E k -> is_step (ttyp top) = false ->
+     sep_slash (rhs_text w top lts we) = true ->
+     parse (string_of_list ([slash_c] ++ rhs_text w top lts we)) ns = Ok (AOp (opstr top) (ARoot "/") (xast E))).
+Proof.
+  intro ns. split.
+  - intros we Hw. exact (RT_root_alone ns we Hw).
+  - intros w top lts we E k Hr Hi Hs. exact (RT_root_binop ns w top lts we E k Hr Hi Hs).
+Qed.
+Print Assumptions C10_bare_root.
